@@ -7,7 +7,8 @@ from .core import SKIP, Scenario
 FUEL = 200000
 CLOSED_MARK = 4294967296
 HUGE = 2 ** 64 - 1
-PRIOSETS = [[HUGE, 2, 1], [2 ** 63, 5], [1], [2, 1], [3, 2, 1], [5, 1], [7, 5, 3, 1], [70, 20, 10], [4, 3], [1000, 2, 1], [6, 5, 4, 3, 2, 1]]
+PRIOSETS = [[HUGE, 2, 1], [2 ** 63, 5], [1], [2, 1], [3, 2, 1], [5, 1], [7, 5, 3, 1], [70, 20, 10], [4, 3], [1000, 2, 1], [6, 5, 4, 3, 2, 1],
+            [2, 1, 0], list(range(12, 0, -1))]      # priority 0 is a legal value (Rate gives it nothing: rejected by v2 New); twelve inputs
 
 
 def ref_shares(ps, kind, H):
@@ -42,6 +43,8 @@ def gen_prio2_scenario(rng, tier, style=None, fault=False):
         kind = 0     # Rate's float64 arithmetic and the uint sum of priorities are outside their domain for such values
     hmin = min_handlers(ps, kind) or 1
     H = rng.choice([hmin, hmin, hmin + 1, hmin + rng.randrange(0, 6), 2 * hmin, rng.randrange(hmin, hmin + 30)])
+    if rng.random() < 0.05:
+        H = rng.randrange(100, 400)       # many handlers: capacity and feedback limit H/10 above the number of inputs
     if rng.random() < 0.04:
         H = max(hmin - 1, 0)      # rejected by the constructor
     style = style or rng.choice(["mixed", "mixed", "saturated", "sparse", "single", "unbuffered", "closing"])
